@@ -24,8 +24,19 @@ func MainPair(t *testing.T, regA, regB *Registry) {
 	if b, err := os.ReadFile(os.Getenv("VERIF_GEN_FILES")); err == nil {
 		ctxMap["schema_text"] = string(b)
 	}
+	for key, env := range map[string]string{"schema_text_old": "VERIF_PAIR_OLD", "schema_text_tl": "VERIF_PAIR_TL"} {
+		if p := os.Getenv(env); p != "" {
+			if b, err := os.ReadFile(p); err == nil {
+				ctxMap[key] = string(b)
+			}
+		}
+	}
 	ctx, _ := json.Marshal(ctxMap)
 	pbt.Context = ctx
+	if os.Getenv("VERIF_PROP") == "C13" {
+		mainEvolution(t, regA, regB)
+		return
+	}
 	var items []Item
 	for _, it := range regA.Items {
 		if !it.HasTL2() {
